@@ -1,6 +1,6 @@
 use crate::Headers;
 use std::cmp::min;
-use std::io::{self, BufRead, BufReader, ErrorKind, Read};
+use std::io::{self, BufRead, BufReader, ErrorKind, Read, Take};
 
 const BUF_SIZE: usize = 4096;
 
@@ -83,7 +83,7 @@ impl<'a, R: Read> BodyReader<'a, R> {
 
     pub(crate) fn inner(&self) -> &R {
         match &self.0 {
-            BodyEncoding::Fixed(FixedReader { inner, .. }) => inner.get_ref().inner(),
+            BodyEncoding::Fixed(FixedReader { inner, .. }) => inner.get_ref().get_ref().inner(),
             BodyEncoding::Chunked(ChunkedReader { inner, .. }) => inner.get_ref().inner(),
             BodyEncoding::Eof(reader) => reader.get_ref().inner(),
             BodyEncoding::Empty(s) => s,
@@ -181,14 +181,18 @@ impl<R: Read> Read for StreamWithLeftover<'_, R> {
 // ---------------------------------------------------------------------
 
 struct FixedReader<'a, R> {
-    inner: BufReader<StreamWithLeftover<'a, R>>,
+    // `Take` keeps the BufReader's read-ahead inside the body: bytes after it belong to the next message
+    inner: BufReader<Take<StreamWithLeftover<'a, R>>>,
     remaining: usize,
 }
 
 impl<'a, R: Read> FixedReader<'a, R> {
     fn new(leftover: &'a [u8], stream: R, len: usize) -> Self {
         Self {
-            inner: BufReader::with_capacity(BUF_SIZE, StreamWithLeftover::new(leftover, stream)),
+            inner: BufReader::with_capacity(
+                BUF_SIZE,
+                StreamWithLeftover::new(leftover, stream).take(len as u64),
+            ),
             remaining: len,
         }
     }
